@@ -87,3 +87,64 @@ func GenRepayProgram(t *rapid.T) *Program {
 	}
 	return p
 }
+
+// GenOverdraftProgram draws scripts in which one account that is already in debt (or gets there in the first
+// statement) is named by several statements with different overdraft allowances, usually next to a funded fallback
+// source so that a statement which can take nothing from it still succeeds - what the account may spend later must
+// not depend on an earlier statement having looked at it.
+func GenOverdraftProgram(t *rapid.T) *Program {
+	p := &Program{Vars: map[string]string{}, Balances: map[string]map[string]*big.Int{}, Meta: map[string]map[string]string{}, Features: map[string]bool{"focused:overdraft": true}}
+	g := &genState{t: t, o: Opts{MaxStmts: 4, MaxDepth: 2}, p: p, noArith: true}
+	asset := rapid.SampledFrom([]string{"USD/2", "COIN"}).Draw(t, "asset")
+	hot := rapid.SampledFrom([]string{"a", "u:1"}).Draw(t, "hot")
+	for _, a := range srcAccounts {
+		p.Balances[a] = map[string]*big.Int{}
+	}
+	switch rapid.IntRange(0, 2).Draw(t, "hotStart") {
+	case 0:
+		p.Balances[hot][asset] = big.NewInt(-int64(rapid.IntRange(1, 150).Draw(t, "debt")))
+		p.Features["balance:negative"] = true
+	case 1:
+		p.Balances[hot][asset] = big.NewInt(int64(rapid.IntRange(0, 30).Draw(t, "hotBalance")))
+	}
+	p.Balances["bank"][asset] = big.NewInt(int64(rapid.IntRange(0, 200).Draw(t, "fallbackBalance")))
+	lit := func(a string) Acc { return Acc{Text: "@" + a, Addr: a} }
+	mon := func(v int64) Mon {
+		return Mon{Text: fmt.Sprintf("[%s %d]", asset, v), Asset: asset, Amount: big.NewInt(v)}
+	}
+	hotSrc := func(label string) *Source {
+		s := &Source{Kind: SrcAccount, Acc: lit(hot)}
+		if rapid.IntRange(0, 4).Draw(t, label+"Var") == 0 {
+			s.Acc = Acc{Text: g.newVar("account", hot, ""), Addr: hot}
+		}
+		switch rapid.IntRange(0, 3).Draw(t, label+"Overdraft") {
+		case 0:
+		default:
+			s.Overdraft = OdBounded
+			s.Bound = mon(int64(rapid.SampledFrom([]int{0, 5, 20, 50, 100, 200}).Draw(t, label+"Bound")))
+			p.Features["src:bounded-overdraft"] = true
+		}
+		return s
+	}
+	for i, n := 0, rapid.IntRange(2, 4).Draw(t, "statements"); i < n; i++ {
+		st := Stmt{Kind: StSend, Asset: asset, Dst: &Dest{Kind: DstAccount, Acc: lit(fmt.Sprintf("d:%d", i))}}
+		if rapid.IntRange(0, 5).Draw(t, "all") == 0 {
+			st.All = true
+			st.AssetText = asset
+		} else {
+			st.Mon = mon(int64(rapid.IntRange(0, 80).Draw(t, "amount")))
+		}
+		switch rapid.IntRange(0, 3).Draw(t, "sourceShape") {
+		case 0:
+			st.Src = hotSrc("alone")
+		case 1:
+			st.Src = &Source{Kind: SrcInOrder, Subs: []*Source{hotSrc("first"), {Kind: SrcAccount, Acc: lit("bank")}}}
+		case 2:
+			st.Src = &Source{Kind: SrcInOrder, Subs: []*Source{{Kind: SrcAccount, Acc: lit("bank")}, hotSrc("second")}}
+		default:
+			st.Src = &Source{Kind: SrcInOrder, Subs: []*Source{{Kind: SrcMaxed, Max: mon(int64(rapid.IntRange(0, 30).Draw(t, "max"))), Sub: hotSrc("maxed")}, {Kind: SrcAccount, Acc: lit("bank")}}}
+		}
+		p.Stmts = append(p.Stmts, st)
+	}
+	return p
+}
